@@ -101,6 +101,9 @@ def tls_conn(draw, combos=None, max_records=12, max_len=2000, delivery=None, ep=
         spec["hs_frag"] = draw(st.sampled_from([0, 0, 0, 512, 700, 2048, 16384]))
         if spec["hs_frag"]:
             spec["cert_len"] = draw(st.sampled_from([300, 1200, 3000, 9000, 17000]))
+        if draw(st.integers(0, 3)) == 0:
+            # record boundaries at / inside the 4-byte header of a message, or a few bytes into its body
+            spec["hs_cuts"] = draw(st.lists(st.tuples(st.integers(0, 5), st.sampled_from([0, 1, 2, 3, 4, 5, 9])).map(list), min_size=1, max_size=3))
         if ver == tlsref.TLS13:
             spec["hs_secrets"] = draw(st.booleans())
             spec["ccs13"] = draw(st.booleans())
@@ -238,9 +241,12 @@ def quic_conn(draw, max_steps=12, zero_cid=True, early=True, retry=True, offered
     offered = others[:pos] + [suite] + others[pos:]
     cl = st.sampled_from([0, 0, 1, 4, 8, 8, 16, 20]) if zero_cid else st.sampled_from([1, 4, 8, 8, 16, 20])
     spec = {"kind": "quic", "seed": draw(SEED), "suite": suite, "offered": offered,
-            "dcid_len": draw(st.sampled_from([8, 8, 12, 18, 20])), "c_scid_len": draw(cl), "s_scid_len": draw(cl),
+            # the client's first Destination Connection ID is at least 8 bytes long (RFC 9000 7.2); shorter ones are only used by C15's grid
+            "dcid_len": draw(st.sampled_from([8, 8, 12, 18, 20])),
+            "c_scid_len": draw(cl), "s_scid_len": draw(cl),
             "retry": draw(st.booleans()) if retry else False,
-            "early": draw(st.sampled_from([0, 0, 0, 1, 2])) if early else 0,
+            "early": draw(st.sampled_from([0, 0, 0, 1, 2, 3])) if early else 0,
+            "early_late": draw(st.sampled_from([0, 0, 1, 2])) if early else 0, "half_rtt": draw(st.sampled_from([0, 0, 1, 2])),
             "split_ch": draw(st.sampled_from([0, 0, 1, 2, 3, 5])), "ch_shuffle": draw(st.booleans()),
             "split_shs": draw(st.sampled_from([0, 0, 2, 3])), "hs_coalesce": draw(st.booleans()),
             "cert_len": draw(st.sampled_from([100, 600, 900]))}
